@@ -270,7 +270,7 @@ func main() {
 		if *prop == "C14" && !(c.Mode == "cursor" || (c.Mode == "translate" && (c.Kind == "SearchPromises" || c.Kind == "SearchSchedules"))) {
 			continue // C14: the query the kernel is asked is the query the client sent
 		}
-		if *prop == "C12" && !c.Slow && c.Mode != "auth" {
+		if *prop == "C12" && !c.Slow && c.Mode != "auth" && !(c.Mode == "status" && c.Status >= 50000) {
 			continue // C12: a reply later than the configured timeout is still a reply
 		}
 		c03kind := c.Kind == "CreatePromise" || c.Kind == "CreatePromiseAndTask" || c.Kind == "CompletePromise" || c.Kind == "CreateSchedule"
